@@ -64,10 +64,13 @@ pub fn token_type_variants(n: usize, all: bool) -> Vec<Vec<usize>> {
         v.push(reversed);
     }
     if all {
-        let weird = [7usize, 0, 65_536];
+        // token types that collide modulo 2^16 / 2^8 or sit at the u32 boundary
+        let weird = [65_536usize, 0, 7];
         v.push((0..n).map(|i| weird[i % 3]).collect());
-        let weird2 = [u32::MAX as usize, 1, 2];
+        let weird2 = [u32::MAX as usize, 65_537, 1];
         v.push((0..n).map(|i| weird2[i % 3]).collect());
+        let weird3 = [256usize, 0, 512];
+        v.push((0..n).map(|i| weird3[i % 3]).collect());
         if n > 1 {
             v.push(vec![5; n]);
         }
@@ -79,4 +82,47 @@ pub fn token_type_variants(n: usize, all: bool) -> Vec<Vec<usize>> {
 pub fn chunk(n: usize, k: usize, w: usize) -> std::ops::Range<usize> {
     let per = n.div_ceil(k.max(1));
     (w * per).min(n)..((w + 1) * per).min(n)
+}
+
+/// One-character atoms whose texts are near each other (polarity, order, escaping, nesting): the
+/// class registry deduplicates classes by their text, so every ordered pair is used in one scanner.
+pub fn class_menu() -> Vec<&'static str> {
+    vec![
+        "a", "\\x61", "[a]", "[^a]", "b", "\\.", ".", "[.]", "[ab]", "[ba]", "[^ab]", "[a-c]", "[^a-c]", "\\d", "\\D", "[\\d]", "[^\\d]", "\\w", "\\W", "\\s", "\\S", "\\pL", "\\PL", "\\p{Alphabetic}", "\\P{Alphabetic}",
+        "\\pN", "\\PN", "[[:alpha:]]", "[[:^alpha:]]", "[^[:alpha:]]", "[[:digit:]]", "[\\pL]", "[^\\pL]", "[\\PL]", "[a-c--b]", "[a-c&&b]", "[a-c~~b]",
+    ]
+}
+
+/// Configurations for one ordered pair of class atoms: both in one mode, and spread over two modes
+/// and a lookahead (the registry is shared by all modes and lookaheads of a scanner).
+pub fn class_pair_patterns(x: &str, y: &str) -> (Vec<String>, (String, String)) {
+    (vec![format!("({x})+"), format!("({y})+"), format!("({x})({y})")], (x.to_string(), y.to_string()))
+}
+
+/// Counted and plain repetitions of small inner patterns in several contexts (zero iterations,
+/// `{0,}`, `{1,}`, `{m,n}` with every 0 <= m <= n <= 3).
+pub fn repetition_shapes() -> Vec<String> {
+    let inners = ["a", "ab", "(a|b)", "[ab]", "b?"];
+    let mut reps: Vec<String> = vec!["*".into(), "+".into(), "?".into()];
+    for m in 0..=3 {
+        reps.push(format!("{{{m}}}"));
+        reps.push(format!("{{{m},}}"));
+        for n in m..=3 {
+            reps.push(format!("{{{m},{n}}}"));
+        }
+    }
+    let mut v = vec![];
+    for i in inners {
+        for r in &reps {
+            let x = format!("({i}){r}");
+            v.push(x.clone());
+            v.push(format!("x{x}"));
+            v.push(format!("{x}y"));
+            v.push(format!("x{x}y"));
+            v.push(format!("(x{x}){{2}}"));
+            v.push(format!("({x}|x)y"));
+            v.push(format!("x({x})*y"));
+        }
+    }
+    v
 }
